@@ -86,8 +86,10 @@ class SourceModule(Object):
         if self._analysing:
             # reached again through an import cycle while the module is being
             # analysed: like a partially initialised module it offers nothing
-            # yet - and what is being analysed on top of it rests on that
-            for module in stack[stack.index(self) + 1:]:
+            # yet - and what is being analysed on top of it rests on that.
+            # Which module of the ring is entered first shapes every table of
+            # it (this one's too): none is kept for the next request
+            for module in stack[stack.index(self):]:
                 module._partial = True
             return {}
         self._analysing = True
